@@ -1393,8 +1393,8 @@ def bin_term(op, a, b):
         if k == 0:
             return base
         return ('bin', 'Add', base, ('lit', k))
-    if op in ('Eq', 'Ne') and a == b and a[0] in ('ctor', 'lit', 'const', 'discr'):
-        return TRUE if op == 'Eq' else FALSE
+    if op in ('Eq', 'Ne') and a == b and (a[0] in ('ctor', 'lit', 'const', 'discr') or (a[0] in ('param', 'field', 'variant', 'fresh', 'elem', 'unbound') and not leaves(a, lambda z: z[0] == 'unk'))):
+        return TRUE if op == 'Eq' else FALSE          # one and the same value (integer / enum / string places; no float is compared in the analysed code)
     if op in ('Eq', 'Ne') and a[0] == 'discr' and b[0] == 'discr':
         return ('lit', (a[1] == b[1]) == (op == 'Eq'))
     if op in ('Eq', 'Ne') and a[0] == 'ctor' and b[0] == 'ctor' and not a[2] and not b[2]:
@@ -1860,6 +1860,56 @@ def builtin_summary(I, cal, args, node, st):
             else:
                 outs.append(Out('val', ('ctor', 'Some', (('found', atom),)) if truth else ('ctor', 'None', ()), s3))
         return outs
+    if name == 'retain' and len(args) == 2 and args[1][0] in ('closure', 'fn') and ('HashSet' in cal or 'HashMap' in cal or 'BTreeSet' in cal):
+        # set.retain(pred) removes exactly the elements pred rejects.  The predicate is a function of the element through equality
+        # comparisons only (checked: anything else leaves the call opaque): it is evaluated once for an element equal to each term it
+        # compares the element with, and once for an element different from all of them.  The call is recorded as the removals it
+        # amounts to - `remove(x)` for every x that is rejected whatever the other comparisons yield - followed by `clear` if an
+        # element different from all of them is not certainly kept.
+        place = args[0]
+        el, st2 = st.fresh('elem')
+        probe = I.apply(args[1], [el], node, st2)
+        cands = []
+        opaque = False
+        for o in probe:
+            if o.kind != 'val':
+                opaque = True; continue
+            for a, t in o.st.pc[len(st2.pc):]:
+                if a[0] == 'bin' and a[1] == 'Eq' and el in (a[2], a[3]):
+                    x = a[3] if a[2] == el else a[2]
+                    if x not in cands:
+                        cands.append(x)
+                elif leaves(a, lambda z: z == el):
+                    opaque = True
+            if o.val[0] != 'lit':
+                for z in leaves(o.val, lambda z: z[0] == 'bin' and z[1] == 'Eq' and el in (z[2], z[3])):
+                    x = z[3] if z[2] == el else z[2]
+                    if x not in cands:
+                        cands.append(x)
+        if not opaque and cands:
+            def verdicts(x):
+                vs = set()
+                for o in I.apply(args[1], [x], node, st):
+                    if o.kind != 'val':
+                        return {None}
+                    for truth, s3 in I.decide(o.val, o.st):
+                        vs.add(truth)
+                return vs
+            removed = [x for x in cands if verdicts(x) == {False}]
+            # an element different from every candidate: all the comparisons are false
+            others = set()
+            for o in probe:
+                if o.kind == 'val' and all((not t) for a, t in o.st.pc[len(st2.pc):] if a[0] == 'bin' and a[1] == 'Eq' and el in (a[2], a[3])):
+                    for truth, s3 in I.decide(o.val, o.st):
+                        if all((not t) for a, t in s3.pc[len(st2.pc):] if a[0] == 'bin' and a[1] == 'Eq' and el in (a[2], a[3])):
+                            others.add(truth)
+            s2 = st
+            base = cal.rsplit('::', 1)[0]
+            for x in removed:
+                s2 = s2.event(('call', base + '::remove', (place, x), node))
+            if others != {True}:
+                s2 = s2.event(('call', base + '::clear', (place,), node))
+            return [Out('val', UNIT, s2)]
     if cal == 'core::iter::traits::iterator::Iterator::enumerate' and len(args) == 1:
         return [Out('val', ('enumerate', args[0]), st)]
     if cal == 'core::iter::traits::iterator::Iterator::collect' and args:
